@@ -1,4 +1,4 @@
-//@@ unit props=C16,C10,C03,C14,C07,C19,C06
+//@@ unit props=C16,C10,C03,C14,C07,C19,C06 rlimit=200
 // Unit xlsbwb: the workbook-level record loops of the xlsb reader (src/xlsb/mod.rs): read_workbook, read_styles,
 // read_shared_strings, worksheet_cells_reader, worksheet_formula -- verbatim text, against the ghost byte-stream model of unit xlsbrec.
 #![allow(unused_imports, dead_code, unused_variables, unused_mut, unused_assignments)]
@@ -134,6 +134,34 @@ proof fn lemma_rec_read(s: Seq<u8>)
 /// t is a record boundary of the stream s: reached from s by consuming k whole records
 pub open spec fn boundary(s: Seq<u8>, k: nat, t: Seq<u8>) -> bool { skip_n(s, k) == Some(t) }
 
+
+// ---- "the first record of kind t" ([MS-XLSB] 2.1.4 framing): what next_skip_blocks must deliver
+/// t opens a block the caller asked to skip
+pub open spec fn is_start(bounds: Seq<(u16, Option<u16>)>, t: int) -> bool { exists|i: int| 0 <= i < bounds.len() && (#[trigger] bounds[i]).0 as int == t }
+pub enum First {
+    /// `at`: the stream positioned at the first record of the requested kind (all records before it are whole records of other kinds)
+    Found { at: Seq<u8> },
+    /// the stream ends, or a record is truncated, first
+    Truncated,
+    /// a record kind that opens a skip block comes first (block skipping is specified by unit xlsbrec only as "stops at a boundary")
+    Blocked,
+}
+#[verifier::opaque]
+pub open spec fn first_of(s: Seq<u8>, t: int, bounds: Seq<(u16, Option<u16>)>) -> First decreases s.len() {
+    if !rec_ok(s) || rec_rest(s).len() >= s.len() { First::Truncated }
+    else if rec_typ(s) == t { First::Found { at: s } }
+    else if is_start(bounds, rec_typ(s)) { First::Blocked }
+    else { first_of(rec_rest(s), t, bounds) }
+}
+proof fn lemma_first_of_step(s: Seq<u8>, t: int, bounds: Seq<(u16, Option<u16>)>)
+    ensures first_of(s, t, bounds) == (
+        if !rec_ok(s) || rec_rest(s).len() >= s.len() { First::Truncated }
+        else if rec_typ(s) == t { First::Found { at: s } }
+        else if is_start(bounds, rec_typ(s)) { First::Blocked }
+        else { first_of(rec_rest(s), t, bounds) }),
+{
+    reveal(first_of);
+}
 //@@ item src/xlsb/mod.rs struct RecordIter
 impl<'a> RecordIter<'a> {
     pub closed spec fn rem(&self) -> Seq<u8> { self.r.rem() }
@@ -187,14 +215,60 @@ impl<'a> RecordIter<'a> {
             && final(buf)@.skip(r->Ok_0 as int) =~= (if old(buf)@.len() < r->Ok_0 { Seq::<u8>::empty() } else { old(buf)@.skip(r->Ok_0 as int) }),
         r is Err ==> !vcomplete(old(self).rem(), 4) || old(self).rem().len() < vhdr(old(self).rem(), 4) + varint_len(old(self).rem()),
 //@@ end
-// TRUSTED: proved in unit xlsbrec (C03.skip_whole_records, C03.skip_err)
-//@@ fn src/xlsb/mod.rs RecordIter::next_skip_blocks external_body ret=r
+// next_skip_blocks: unit xlsbrec proves "stops at a record boundary, at a record of the requested type"; the workbook-level loops need
+// WHICH record (the first one), so the function is put under a stronger contract here (callees read_type / fill_buffer as above).
+//@@ fn src/xlsb/mod.rs RecordIter::next_skip_blocks props=C03,C19,C10 entry ret=r
 //@@ sig
     ensures
-        r is Ok ==> exists|k: nat, t: Seq<u8>| #[trigger] boundary(old(self).rem(), k, t) && rec_ok(t) && rec_typ(t) == record_type
-            && r->Ok_0 as int == rec_len(t) && final(buf)@.len() >= r->Ok_0
-            && final(buf)@.subrange(0, r->Ok_0 as int) == rec_payload(t) && final(self).rem() == rec_rest(t),
-        r is Err ==> exists|k: nat, t: Seq<u8>| #[trigger] boundary(old(self).rem(), k, t) && !rec_ok(t),
+        // the record returned is the FIRST record of the requested kind; everything before it is passed over whole
+        //# C03,C19.skip_to_first_record
+        first_of(old(self).rem(), record_type as int, bounds@) is Found ==> r is Ok && ({
+            let t = first_of(old(self).rem(), record_type as int, bounds@)->at;
+            r->Ok_0 as int == rec_len(t) && final(buf)@.len() >= r->Ok_0
+            && final(buf)@.subrange(0, r->Ok_0 as int) == rec_payload(t) && final(self).rem() == rec_rest(t) }),
+        //# C03,C19.skip_truncated_is_error
+        first_of(old(self).rem(), record_type as int, bounds@) is Truncated ==> r is Err,
+        // the buffer never shrinks (stale bytes of longer earlier records stay behind the payload)
+        //# C03.skip_buffer_monotone
+        r is Ok ==> final(buf)@.len() >= old(buf)@.len(),
+        // termination of the callers' loops: every successful call consumes at least one record
+        //# C03,C06.skip_advances
+        r is Ok ==> final(self).rem().len() < old(self).rem().len(),
+//@@ body
+        let ghost s0 = self.rem();
+        let ghost mut cur = self.rem();
+        let ghost b0 = buf@.len();
+//@@ loop 0
+            invariant
+                s0 == old(self).rem(), b0 == old(buf)@.len(),
+                cur == self.rem(),
+                cur.len() <= s0.len(),
+                buf@.len() >= b0,
+                first_of(s0, record_type as int, bounds@) is Blocked || first_of(s0, record_type as int, bounds@) == first_of(cur, record_type as int, bounds@),
+            decreases self.rem().len(),
+//@@ before /let typ = /
+            let ghost h = cur;
+            proof { lemma_first_of_step(h, record_type as int, bounds@); lemma_rec_total(h); }
+//@@ before /if typ == record_type/
+            proof { lemma_rec_read(h); cur = rec_rest(h); }
+//@@ closure 0
+    -> (res: bool) ensures res == (b.0 == typ)
+//@@ closure 1
+    -> (res: Option<u16>) ensures res == b.1
+//@@ before /while self\.read_type\(\)\? != end/
+                proof { assert(is_start(bounds@, typ as int)); }
+//@@ loop 1
+                    invariant
+                        s0 == old(self).rem(), b0 == old(buf)@.len(),
+                        first_of(s0, record_type as int, bounds@) is Blocked,
+                        buf@.len() >= b0,
+                        cur == self.rem(),
+                        cur.len() < h.len(),
+                    decreases self.rem().len(),
+//@@ after /let _ = self\.fill_buffer\(buf\)\?;/#0of2
+                    proof { lemma_rec_read(cur); cur = rec_rest(cur); }
+//@@ after /let _ = self\.fill_buffer\(buf\)\?;/#1of2
+                proof { lemma_rec_read(cur); cur = rec_rest(cur); }
 //@@ end
 //@@ endimpl
 
@@ -208,6 +282,17 @@ pub uninterp spec fn cow_owned<B: std::borrow::ToOwned + ?Sized>(c: Cow<'_, B>) 
 pub assume_specification<'a, B> [std::borrow::Cow::<'_, B>::into_owned] (c: std::borrow::Cow<'a, B>) -> (r: <B as std::borrow::ToOwned>::Owned)
     where B: std::marker::MetaSized + std::borrow::ToOwned + ?Sized,
     ensures r == cow_owned(c);
+// TRUSTED: A-std -- `String == str` compares the contents (alloc::string: `impl PartialEq<str> for String`); vstd leaves the
+// PartialEqSpec of this pair uninterpreted
+#[verifier::external_body]
+pub proof fn axiom_string_eq_str()
+    ensures
+        <String as vstd::std_specs::cmp::PartialEqSpec<str>>::obeys_eq_spec(),
+        forall|a: String, b: &str| #[trigger] <String as vstd::std_specs::cmp::PartialEqSpec<str>>::eq_spec(&a, b) == (a@ == b@),
+{}
+// TRUSTED: A-std -- Option::copied doc: "Maps an Option<&T> to an Option<T> by copying the contents of the option."
+pub assume_specification<'a, T: Copy>[ Option::<&'a T>::copied ](o: Option<&'a T>) -> (r: Option<T>)
+    ensures r == (match o { Some(x) => Some(*x), None => None });
 // TRUSTED: A-std -- for B = str the owned form is the String with the same characters
 #[verifier::external_body]
 pub proof fn axiom_cow_owned_str_all()
@@ -243,7 +328,7 @@ impl Utf16LeStandIn {
 //@@ item src/lib.rs struct Sheet
 //@@ item src/lib.rs struct Metadata
 //@@ item src/lib.rs enum HeaderRow keep_attrs
-//@@ item src/formats.rs enum CellFormat
+//@@ item src/formats.rs enum CellFormat keep_attrs
 //@@ item src/xlsb/mod.rs struct XlsbOptions
 //@@ item src/xlsb/mod.rs struct Xlsb cfg_off=picture
 
@@ -635,7 +720,9 @@ pub enum Wb2 {
 /// whatever its formula is), BrtExternSheet 0x016A replaces the extern-sheet table, other record kinds are passed over whole
 #[verifier::opaque]
 pub open spec fn wb2(s: Seq<u8>, st: Wb2St, shn: Seq<Seq<char>>) -> Wb2 decreases s.len() {
-    if !rec_ok(s) || rec_rest(s).len() >= s.len() { Wb2::Truncated }
+    if !vcomplete(s, 2) { Wb2::Truncated }
+    else if after_names(rec_typ(s)) { Wb2::Done { st } }   // the reader need not look further than the type of that record
+    else if !rec_ok(s) || rec_rest(s).len() >= s.len() { Wb2::Truncated }
     else if rec_typ(s) == 0x016A {
         if !xti_wf(rec_payload(s)) { Wb2::Malformed }
         else { wb2(rec_rest(s), Wb2St { ext: xti_names(rec_payload(s), shn), ..st }, shn) }
@@ -649,12 +736,13 @@ pub open spec fn wb2(s: Seq<u8>, st: Wb2St, shn: Seq<Seq<char>>) -> Wb2 decrease
             }
         }
     }
-    else if after_names(rec_typ(s)) { Wb2::Done { st } }
     else { wb2(rec_rest(s), st, shn) }
 }
 proof fn lemma_wb2_step(s: Seq<u8>, st: Wb2St, shn: Seq<Seq<char>>)
     ensures wb2(s, st, shn) == (
-        if !rec_ok(s) || rec_rest(s).len() >= s.len() { Wb2::Truncated }
+        if !vcomplete(s, 2) { Wb2::Truncated }
+        else if after_names(rec_typ(s)) { Wb2::Done { st } }
+        else if !rec_ok(s) || rec_rest(s).len() >= s.len() { Wb2::Truncated }
         else if rec_typ(s) == 0x016A {
             if !xti_wf(rec_payload(s)) { Wb2::Malformed }
             else { wb2(rec_rest(s), Wb2St { ext: xti_names(rec_payload(s), shn), ..st }, shn) }
@@ -668,7 +756,6 @@ proof fn lemma_wb2_step(s: Seq<u8>, st: Wb2St, shn: Seq<Seq<char>>)
                 }
             }
         }
-        else if after_names(rec_typ(s)) { Wb2::Done { st } }
         else { wb2(rec_rest(s), st, shn) }),
 {
     reveal(wb2);
@@ -683,14 +770,563 @@ pub open spec fn wb_names(bytes: Seq<u8>, is_1904: bool, rels: Map<Vec<u8>, Stri
     }
 }
 
+
+// =====================================================================================================================
+// SPECIFICATION of xl/sharedStrings.bin ([MS-XLSB] 2.1.7.45): BrtBeginSst 0x009F (cstTotal u32 @0, cstUnique u32 @4), then cstUnique
+// BrtSSTItem 0x0013 records (flags u8 @0, XLWideString @1, then optional runs / phonetic data); index i = the i-th BrtSSTItem
+// =====================================================================================================================
+pub open spec fn sst_path() -> Seq<char> { "xl/sharedStrings.bin"@ }
+/// the skip blocks the reader passes to next_skip_blocks: future-record blocks BrtFRTBegin 0x0023 .. BrtFRTEnd 0x0024
+pub open spec fn sst_bounds() -> Seq<(u16, Option<u16>)> { seq![(0x0023u16, Some(0x0024u16))] }
+pub enum Sst {
+    Done { items: Seq<Seq<char>> },
+    Truncated,
+    /// BrtBeginSst shorter than 8 bytes / an item whose string is longer than its record: outside the property's domain
+    Malformed,
+    /// a future-record block comes before an item (see First::Blocked)
+    Blocked,
+}
+/// the next n string items of the stream s
+pub open spec fn sst_items(s: Seq<u8>, n: nat, acc: Seq<Seq<char>>) -> Sst decreases n {
+    if n == 0 { Sst::Done { items: acc } }
+    else {
+        match first_of(s, 0x0013, sst_bounds()) {
+            First::Found { at } =>
+                if !ws_ok(rec_payload(at), 1) { Sst::Malformed }
+                else { sst_items(rec_rest(at), (n - 1) as nat, acc.push(ws_text(rec_payload(at), 1))) },
+            First::Truncated => Sst::Truncated,
+            First::Blocked => Sst::Blocked,
+        }
+    }
+}
+proof fn lemma_sst_items_step(s: Seq<u8>, n: nat, acc: Seq<Seq<char>>)
+    ensures sst_items(s, n, acc) == (
+        if n == 0 { Sst::Done { items: acc } }
+        else {
+            match first_of(s, 0x0013, sst_bounds()) {
+                First::Found { at } =>
+                    if !ws_ok(rec_payload(at), 1) { Sst::Malformed }
+                    else { sst_items(rec_rest(at), (n - 1) as nat, acc.push(ws_text(rec_payload(at), 1))) },
+                First::Truncated => Sst::Truncated,
+                First::Blocked => Sst::Blocked,
+            }
+        }),
+{
+    reveal_with_fuel(sst_items, 2);
+}
+pub open spec fn sst_part(s: Seq<u8>) -> Sst {
+    match first_of(s, 0x009F, Seq::<(u16, Option<u16>)>::empty()) {
+        First::Found { at } =>
+            if rec_payload(at).len() < 8 { Sst::Malformed }
+            else { sst_items(rec_rest(at), le32(rec_payload(at).subrange(4, 8)) as nat, Seq::empty()) },
+        First::Truncated => Sst::Truncated,
+        First::Blocked => Sst::Blocked,
+    }
+}
+/// what `wide_str(&buf[off..])` sees when the buffer holds the payload p (possibly followed by stale bytes of earlier records)
+proof fn lemma_ws_buf(b: Seq<u8>, p: Seq<u8>, off: int)
+    requires b.len() >= p.len(), b.subrange(0, p.len() as int) == p, ws_ok(p, off),
+    ensures ({
+        let sub = b.subrange(off, b.len() as int);
+        le32(sub) == le32(p.subrange(off, off + 4)) && sub.len() >= 4 + 2 * le32(sub)
+        && sub.subrange(4, 4 + 2 * le32(sub)) == p.subrange(off + 4, ws_end(p, off)) }),
+{
+    let sub = b.subrange(off, b.len() as int);
+    let q = p.subrange(off, off + 4);
+    assert(sub[0] == q[0] && sub[1] == q[1] && sub[2] == q[2] && sub[3] == q[3]) by {
+        assert(b.subrange(0, p.len() as int)[off] == b[off] && b.subrange(0, p.len() as int)[off + 1] == b[off + 1]
+            && b.subrange(0, p.len() as int)[off + 2] == b[off + 2] && b.subrange(0, p.len() as int)[off + 3] == b[off + 3]);
+    }
+    let n = le32(sub);
+    let x = sub.subrange(4, 4 + 2 * n); let y = p.subrange(off + 4, ws_end(p, off));
+    assert forall|j: int| 0 <= j < 2 * n implies #[trigger] x[j] == y[j] by {
+        assert(b.subrange(0, p.len() as int)[off + 4 + j] == b[off + 4 + j]);
+    }
+    assert(x =~= y);
+}
+
+// =====================================================================================================================
+// SPECIFICATION of xl/styles.bin ([MS-XLSB] 2.1.7.50): BrtBeginFmts 0x0267 (count u32) + BrtFmt 0x002C (ifmt u16 @0, stFmtCode
+// XLWideString @2) records; BrtBeginCellXFs 0x0269 (count u32) + BrtXF 0x002F (ixfeParent u16 @0, iFmt u16 @2) records.
+// C10: cell XF number i is classified by "the number format its style refers to": the custom format registered under its iFmt if there is
+// one, the built-in format of that id otherwise.
+// =====================================================================================================================
+pub open spec fn styles_path() -> Seq<char> { "xl/styles.bin"@ }
+/// class of a custom format string (src/formats.rs detect_custom_number_format: under contract in unit formats)
+pub uninterp spec fn custom_class(s: Seq<char>) -> CellFormat;
+// TRUSTED: stand-in with the signature of src/formats.rs detect_custom_number_format (unit formats proves it against the number-format grammar)
+#[verifier::external_body]
+fn detect_custom_number_format(format: &str) -> (r: CellFormat)
+    ensures r == custom_class(format@),
+{ unimplemented!() }
+/// ECMA-376 18.8.30 built-in number formats: ids 14-22, 45, 47 are date/time formats, 46 is the elapsed-time format [h]:mm:ss
+pub open spec fn builtin_class(id: int) -> CellFormat {
+    if 14 <= id <= 22 || id == 45 || id == 47 { CellFormat::DateTime } else if id == 46 { CellFormat::TimeDelta } else { CellFormat::Other }
+}
+//@@ fn src/formats.rs builtin_format_by_code props=C10 ret=r
+//@@ sig
+    ensures
+        //# C10.builtin_ids
+        r == builtin_class(code as int),
+//@@ end
+/// [MS-XLSB] 2.4.697 BrtFmt: "ifmt MUST be within one of the ranges 5 to 8, 23 to 26, 41 to 44, 63 to 66, 164 to 382" -- a custom format never
+/// takes the id of a built-in date/time format
+pub open spec fn fmt_id_ok(id: int) -> bool { 5 <= id <= 8 || 23 <= id <= 26 || 41 <= id <= 44 || 63 <= id <= 66 || 164 <= id <= 382 }
+pub open spec fn xf_class(id: int, custom: Map<u16, CellFormat>) -> CellFormat {
+    if custom.contains_key(id as u16) { custom[id as u16] } else { builtin_class(id) }
+}
+pub enum StMode { Top, Fmts { left: nat }, Xfs { left: nat } }
+pub ghost struct StSt { pub custom: Map<u16, CellFormat>, pub xfs: Seq<CellFormat>, pub mode: StMode }
+pub enum Styles {
+    /// all declared cell XFs read: their classes in record order
+    Done { xfs: Seq<CellFormat> },
+    Truncated,
+    /// a record shorter than its layout, or a BrtFmt whose id is outside the ranges of the format: outside the property's domain
+    Malformed,
+}
+#[verifier::opaque]
+pub open spec fn styles(s: Seq<u8>, st: StSt) -> Styles decreases s.len() {
+    if st.mode == (StMode::Xfs { left: 0 }) { Styles::Done { xfs: st.xfs } }
+    else if !rec_ok(s) || rec_rest(s).len() >= s.len() { Styles::Truncated }
+    else {
+        let p = rec_payload(s);
+        match st.mode {
+            StMode::Top =>
+                if rec_typ(s) == 0x0267 {
+                    if p.len() < 4 { Styles::Malformed }
+                    else { styles(rec_rest(s), StSt { mode: if le32(p) == 0 { StMode::Top } else { StMode::Fmts { left: le32(p) as nat } }, ..st }) }
+                } else if rec_typ(s) == 0x0269 {
+                    if p.len() < 4 { Styles::Malformed }
+                    else { styles(rec_rest(s), StSt { mode: StMode::Xfs { left: le32(p) as nat }, ..st }) }
+                } else { styles(rec_rest(s), st) },
+            StMode::Fmts { left } =>
+                if rec_typ(s) == 0x002C {
+                    if p.len() < 2 || !ws_ok(p, 2) || !fmt_id_ok(le16(p)) { Styles::Malformed }
+                    else {
+                        styles(rec_rest(s), StSt { custom: st.custom.insert(le16(p) as u16, custom_class(ws_text(p, 2))),
+                            mode: if left == 1 { StMode::Top } else { StMode::Fmts { left: (left - 1) as nat } }, ..st })
+                    }
+                } else { styles(rec_rest(s), st) },
+            StMode::Xfs { left } =>
+                if rec_typ(s) == 0x002F {
+                    if p.len() < 4 { Styles::Malformed }
+                    else { styles(rec_rest(s), StSt { xfs: st.xfs.push(xf_class(le16(p.subrange(2, 4)), st.custom)), mode: StMode::Xfs { left: (left - 1) as nat }, ..st }) }
+                } else { styles(rec_rest(s), st) },
+        }
+    }
+}
+proof fn lemma_styles_step(s: Seq<u8>, st: StSt)
+    ensures styles(s, st) == (
+        if st.mode == (StMode::Xfs { left: 0 }) { Styles::Done { xfs: st.xfs } }
+        else if !rec_ok(s) || rec_rest(s).len() >= s.len() { Styles::Truncated }
+        else {
+            let p = rec_payload(s);
+            match st.mode {
+                StMode::Top =>
+                    if rec_typ(s) == 0x0267 {
+                        if p.len() < 4 { Styles::Malformed }
+                        else { styles(rec_rest(s), StSt { mode: if le32(p) == 0 { StMode::Top } else { StMode::Fmts { left: le32(p) as nat } }, ..st }) }
+                    } else if rec_typ(s) == 0x0269 {
+                        if p.len() < 4 { Styles::Malformed }
+                        else { styles(rec_rest(s), StSt { mode: StMode::Xfs { left: le32(p) as nat }, ..st }) }
+                    } else { styles(rec_rest(s), st) },
+                StMode::Fmts { left } =>
+                    if rec_typ(s) == 0x002C {
+                        if p.len() < 2 || !ws_ok(p, 2) || !fmt_id_ok(le16(p)) { Styles::Malformed }
+                        else {
+                            styles(rec_rest(s), StSt { custom: st.custom.insert(le16(p) as u16, custom_class(ws_text(p, 2))),
+                                mode: if left == 1 { StMode::Top } else { StMode::Fmts { left: (left - 1) as nat } }, ..st })
+                        }
+                    } else { styles(rec_rest(s), st) },
+                StMode::Xfs { left } =>
+                    if rec_typ(s) == 0x002F {
+                        if p.len() < 4 { Styles::Malformed }
+                        else { styles(rec_rest(s), StSt { xfs: st.xfs.push(xf_class(le16(p.subrange(2, 4)), st.custom)), mode: StMode::Xfs { left: (left - 1) as nat }, ..st }) }
+                    } else { styles(rec_rest(s), st) },
+            }
+        }),
+{
+    reveal(styles);
+}
+/// the position `first_of` finds holds a complete record of the requested kind
+proof fn lemma_first_of_at(s: Seq<u8>, t: int, bounds: Seq<(u16, Option<u16>)>)
+    ensures first_of(s, t, bounds) is Found ==> rec_ok(first_of(s, t, bounds)->at) && rec_typ(first_of(s, t, bounds)->at) == t
+        && rec_rest(first_of(s, t, bounds)->at).len() < first_of(s, t, bounds)->at.len(),
+    decreases s.len(),
+{
+    lemma_first_of_step(s, t, bounds);
+    if !(!rec_ok(s) || rec_rest(s).len() >= s.len()) && rec_typ(s) != t && !is_start(bounds, rec_typ(s)) {
+        lemma_first_of_at(rec_rest(s), t, bounds);
+    }
+}
+/// with no skip blocks, `first_of` never stops at a block
+proof fn lemma_first_of_unblocked(s: Seq<u8>, t: int)
+    ensures !(first_of(s, t, Seq::<(u16, Option<u16>)>::empty()) is Blocked),
+    decreases s.len(),
+{
+    lemma_first_of_step(s, t, Seq::<(u16, Option<u16>)>::empty());
+    if !(!rec_ok(s) || rec_rest(s).len() >= s.len()) && rec_typ(s) != t {
+        lemma_first_of_unblocked(rec_rest(s), t);
+    }
+}
+/// inside a run of BrtFmt (resp. BrtXF) records the reader goes to the next record of that kind, passing over whole records of other kinds
+proof fn lemma_styles_seek(s: Seq<u8>, st: StSt, t: int)
+    requires (st.mode is Fmts && st.mode->Fmts_left > 0 && t == 0x002C) || (st.mode is Xfs && st.mode->Xfs_left > 0 && t == 0x002F),
+    ensures
+        first_of(s, t, Seq::<(u16, Option<u16>)>::empty()) is Truncated ==> styles(s, st) is Truncated,
+        first_of(s, t, Seq::<(u16, Option<u16>)>::empty()) is Found ==> styles(s, st) == styles(first_of(s, t, Seq::<(u16, Option<u16>)>::empty())->at, st),
+    decreases s.len(),
+{
+    lemma_first_of_step(s, t, Seq::<(u16, Option<u16>)>::empty());
+    lemma_styles_step(s, st);
+    if !(!rec_ok(s) || rec_rest(s).len() >= s.len()) && rec_typ(s) != t {
+        lemma_styles_seek(rec_rest(s), st, t);
+    }
+}
+
+// =====================================================================================================================
+// Sheet access: worksheet_cells_reader / worksheet_formula (C07, C16, C14, C06)
+// =====================================================================================================================
+//@@ item src/lib.rs struct Dimensions keep_attrs
+//@@ item src/lib.rs trait "trait CellType"
+impl CellType for String {}
+//@@ item src/lib.rs struct Cell
+//@@ item src/lib.rs struct Range
+/// Range::from_sparse (src/lib.rs; under contract in unit range): the range as a function of the cell list
+pub uninterp spec fn from_sparse_spec<T: CellType>(cells: Seq<Cell<T>>) -> Range<T>;
+impl<T: CellType> Range<T> {
+    // TRUSTED: stand-in with the signature of src/lib.rs Range::from_sparse (unit range: bounding rectangle of the cells, values at their
+    // positions, Default elsewhere); here only "a function of the cells handed over"
+    #[verifier::external_body]
+    pub fn from_sparse(cells: Vec<Cell<T>>) -> (r: Range<T>)
+        ensures r == from_sparse_spec(cells@),
+    { unimplemented!() }
+}
+/// Dimensions::len as a function of the four fields (src/lib.rs; under contract in unit lazyrange, where its overflow on a hostile BrtWsDim
+/// is a registered finding)
+pub uninterp spec fn dims_len(d: Dimensions) -> u64;
+impl Dimensions {
+    // TRUSTED: stand-in with the signature of src/lib.rs Dimensions::len (unit lazyrange)
+    #[verifier::external_body]
+    pub fn len(&self) -> (r: u64)
+        ensures r == dims_len(*self),
+    { unimplemented!() }
+}
+/// what a cells reader was built from: the bytes of the sheet part and the workbook tables handed to it
+pub ghost struct ReaderSrc {
+    pub bytes: Seq<u8>, pub formats: Seq<CellFormat>, pub strings: Seq<String>, pub extern_sheets: Seq<String>,
+    pub names: Seq<(String, String)>, pub is_1904: bool,
+}
+// TRUSTED: stand-in for src/xlsb/cells_reader.rs XlsbCellsReader (its `next_cell` is under contract in unit xlsbrec; `new` reads the
+// records up to BrtBeginSheetData and stores its arguments).  `src()` names what the reader was built from; `formulas()` is the finite
+// sequence of formula cells it will still deliver, `fend()` how that sequence ends, `dims()` the parsed BrtWsDim.
+#[verifier::external_body]
+pub struct XlsbCellsReader<'a> { _p: core::marker::PhantomData<&'a u8> }
+impl<'a> XlsbCellsReader<'a> {
+    pub uninterp spec fn src(&self) -> ReaderSrc;
+    /// the formula cells of a sheet part read with the given tables / how that stream ends (XlsbCellsReader::next_formula, parse_formula)
+    pub uninterp spec fn formulas_of(src: ReaderSrc) -> Seq<Cell<String>>;
+    pub uninterp spec fn fend_of(src: ReaderSrc) -> Option<XlsbError>;
+    pub uninterp spec fn formulas(&self) -> Seq<Cell<String>>;
+    pub uninterp spec fn fend(&self) -> Option<XlsbError>;
+    pub uninterp spec fn dims(&self) -> Dimensions;
+    // TRUSTED: signature of XlsbCellsReader::new; the reader is a function of its arguments (record stream + the five workbook tables)
+    #[verifier::external_body]
+    pub(crate) fn new(iter: RecordIter<'a>, formats: &'a [CellFormat], strings: &'a [String], extern_sheets: &'a [String],
+        metadata_names: &'a [(String, String)], is_1904: bool) -> (r: Result<Self, XlsbError>)
+        ensures r is Ok ==> r->Ok_0.src() == (ReaderSrc { bytes: iter.rem(), formats: formats@, strings: strings@, extern_sheets: extern_sheets@,
+            names: metadata_names@, is_1904 }) && r->Ok_0.formulas() == Self::formulas_of(r->Ok_0.src()) && r->Ok_0.fend() == Self::fend_of(r->Ok_0.src()),
+    { unimplemented!() }
+    // TRUSTED: signature of XlsbCellsReader::dimensions (returns the stored field)
+    #[verifier::external_body]
+    pub fn dimensions(&self) -> (d: Dimensions)
+        ensures d == self.dims(),
+    { unimplemented!() }
+    // TRUSTED: signature of XlsbCellsReader::next_formula; pops the head of the ghost formula stream (a sheet part is finite and every call
+    // consumes input: this is what gives the caller's loop a measure)
+    #[verifier::external_body]
+    pub fn next_formula(&mut self) -> (r: Result<Option<Cell<String>>, XlsbError>)
+        ensures
+            final(self).fend() == old(self).fend() && final(self).dims() == old(self).dims() && final(self).src() == old(self).src(),
+            match r {
+                Ok(Some(c)) => old(self).formulas().len() > 0 && c == old(self).formulas()[0] && final(self).formulas() == old(self).formulas().skip(1),
+                Ok(None) => old(self).formulas().len() == 0 && old(self).fend() is None && final(self).formulas() == old(self).formulas(),
+                Err(e) => old(self).formulas().len() == 0 && old(self).fend() == Some(e) && final(self).formulas() == old(self).formulas(),
+            },
+    { unimplemented!() }
+}
+/// the formula cells with a non-empty text, in order
+pub open spec fn nonempty_formulas(cs: Seq<Cell<String>>) -> Seq<Cell<String>> decreases cs.len() {
+    if cs.len() == 0 { Seq::empty() } else {
+        let k = nonempty_formulas(cs.drop_last());
+        if cs.last().v()@.len() > 0 { k.push(cs.last()) } else { k }
+    }
+}
+// TRUSTED: the body is the real expression `Vec::with_capacity(n)`; the wrapper exists to carry the allocation cap of C06 as a precondition
+// on the real argument expression (vstd's own specification of Vec::with_capacity has no precondition)
+#[verifier::external_body]
+fn verif_with_capacity_capped<T>(cap: usize) -> (v: Vec<T>)
+    requires
+        // memory requested from a declared dimension is capped whatever the file says
+        cap <= 1_000_000,
+    ensures v@ == Seq::<T>::empty(),
+{ Vec::with_capacity(cap) }
+impl<RS> Xlsb<RS> {
+    // the fields of Xlsb are private: public contracts observe them through these accessors
+    pub closed spec fn v_zip(&self) -> ZipArchive<RS> { self.zip }
+    pub closed spec fn v_sheets(&self) -> Seq<(String, String)> { self.sheets@ }
+    pub closed spec fn v_formats(&self) -> Seq<CellFormat> { self.formats@ }
+    pub closed spec fn v_strings(&self) -> Seq<String> { self.strings@ }
+    pub closed spec fn v_extern(&self) -> Seq<String> { self.extern_sheets@ }
+    pub closed spec fn v_names(&self) -> Seq<(String, String)> { self.metadata.names@ }
+    pub closed spec fn v_1904(&self) -> bool { self.is_1904 }
+    /// `name` is one of the sheets listed in workbook.bin (exact match)
+    pub open spec fn knows(&self, name: Seq<char>) -> bool { exists|i: int| 0 <= i < self.v_sheets().len() && (#[trigger] self.v_sheets()[i]).0@ == name }
+}
+impl<T: CellType> Cell<T> {
+    pub closed spec fn v(&self) -> T { self.val }
+}
+
 pub open spec fn strs(v: Seq<String>) -> Seq<Seq<char>> { v.map_values(|s: String| s@) }
 
 //@@ impl src/xlsb/mod.rs Xlsb
+//@@ fn src/xlsb/mod.rs Xlsb::read_styles props=C10,C03 entry ret=r
+//@@ sig
+    ensures
+        //# C10.styles_absent_part
+        part_bytes(old(self).zip, styles_path()) is None ==> r is Ok && final(self).formats@ == old(self).formats@,
+        // the style table maps cell XF number i to the class of the number format the i-th BrtXF refers to
+        //# C10.xf_class_by_number_format
+        ({ let t = styles(part_bytes(old(self).zip, styles_path())->Some_0, StSt { custom: Map::empty(), xfs: Seq::empty(), mode: StMode::Top });
+           part_bytes(old(self).zip, styles_path()) is Some && t is Done ==> r is Ok && final(self).formats@ == old(self).formats@ + t->xfs }),
+        //# C06,C10.styles_truncated_is_error
+        ({ let t = styles(part_bytes(old(self).zip, styles_path())->Some_0, StSt { custom: Map::empty(), xfs: Seq::empty(), mode: StMode::Top });
+           part_bytes(old(self).zip, styles_path()) is Some && t is Truncated ==> r is Err }),
+        //# C07.styles_read_frame
+        final(self).sheets@ == old(self).sheets@ && final(self).strings@ == old(self).strings@ && final(self).is_1904 == old(self).is_1904,
+//@@ after /let mut number_formats = BTreeMap::new\(\);/
+        let ghost s0 = iter.rem();
+        let ghost f0 = self.formats@;
+        let ghost st0 = StSt { custom: Map::<u16, CellFormat>::empty(), xfs: Seq::<CellFormat>::empty(), mode: StMode::Top };
+        let ghost tot = styles(s0, st0);
+        let ghost bad = tot is Malformed;
+        let ghost mut st = st0;
+        let ghost mut cur = s0;
+        proof { assert(f0 + st.xfs =~= f0); }
+//@@ loop 0
+            invariant_except_break
+                // same framing rule as in workbook.bin
+                //# C03,C10.styles_unknown_records_skipped_whole
+                cur == iter.rem(),
+                buf@.len() == 0,
+                bad || (tot == styles(cur, st) && st.mode is Top),
+            invariant
+                part_bytes(old(self).zip, styles_path()) is Some, s0 == part_bytes(old(self).zip, styles_path())->Some_0,
+                st0 == (StSt { custom: Map::<u16, CellFormat>::empty(), xfs: Seq::<CellFormat>::empty(), mode: StMode::Top }),
+                tot == styles(s0, st0), f0 == old(self).formats@, bad == (tot is Malformed),
+                bad || number_formats@ == st.custom,
+                forall|k: u16| #[trigger] st.custom.contains_key(k) ==> fmt_id_ok(k as int),
+                bad || self.formats@ == f0 + st.xfs,
+                self.sheets@ == old(self).sheets@, self.strings@ == old(self).strings@, self.is_1904 == old(self).is_1904,
+            ensures
+                bad || tot == (Styles::Done { xfs: st.xfs }),
+            decreases iter.rem().len(),
+//@@ before /match iter\.read_type\(\)\? \{/
+            let ghost h = cur;
+            proof { lemma_styles_step(h, st); lemma_rec_total(h); }
+//@@ after /let _len = iter\.fill_buffer\(&mut buf\)\?;/#0of2
+                    let ghost pl = rec_payload(h);
+                    proof { lemma_rec_read(h); assert(buf@ =~= pl); cur = rec_rest(h); }
+//@@ after /let len = read_usize\(&buf\);/#0of2
+                    proof {
+                        if pl.len() >= 4 { st = StSt { mode: if le32(pl) == 0 { StMode::Top } else { StMode::Fmts { left: le32(pl) as nat } }, ..st }; }
+                    }
+//@@ loop 1 it
+                        invariant
+                            part_bytes(old(self).zip, styles_path()) is Some, s0 == part_bytes(old(self).zip, styles_path())->Some_0,
+                            st0 == (StSt { custom: Map::<u16, CellFormat>::empty(), xfs: Seq::<CellFormat>::empty(), mode: StMode::Top }),
+                            tot == styles(s0, st0), f0 == old(self).formats@, bad == (tot is Malformed),
+                            pl.len() < 4 ==> bad,
+                            bad || (len as int == le32(pl) && tot == styles(cur, st) && number_formats@ == st.custom
+                                && st.mode == (if it.index@ < len { StMode::Fmts { left: (len - it.index@) as nat } } else { StMode::Top })),
+                            cur == iter.rem(), cur.len() < h.len(),
+                            it.index@ <= len,
+                            forall|k: u16| #[trigger] st.custom.contains_key(k) ==> fmt_id_ok(k as int),
+                            bad || self.formats@ == f0 + st.xfs,
+                            self.sheets@ == old(self).sheets@, self.strings@ == old(self).strings@, self.is_1904 == old(self).is_1904,
+//@@ before /let _ = iter\.next_skip_blocks\(0x002C/
+                        let ghost g = cur;
+                        let ghost f = first_of(g, 0x002C, Seq::<(u16, Option<u16>)>::empty());
+                        proof {
+                            let bl: [(u16, Option<u16>); 0] = [];   // the literal `&[]` of the call below
+                            assert(bl@ =~= Seq::<(u16, Option<u16>)>::empty());
+                            lemma_first_of_unblocked(g, 0x002C);
+                            if !bad { lemma_styles_seek(g, st, 0x002C); }
+                            if f is Found { lemma_styles_step(f->at, st); lemma_first_of_at(g, 0x002C, Seq::<(u16, Option<u16>)>::empty()); }
+                        }
+//@@ after /let _ = iter\.next_skip_blocks\(0x002C[^;]*;/
+                        proof { cur = iter.rem(); }
+//@@ before /number_formats\s*\.insert\(/
+                        proof {
+                            axiom_cow_str();
+                            let p = rec_payload(f->at);
+                            if f is Found && p.len() >= 2 && ws_ok(p, 2) {
+                                lemma_ws_buf(buf@, p, 2);
+                                assert(buf@.subrange(0, p.len() as int)[0] == buf@[0] && buf@.subrange(0, p.len() as int)[1] == buf@[1]);
+                                // BrtFmt: the format id and its format string
+                                //# C10.custom_format_registered
+                                assert(fmt_code as int == le16(p) && cow_chars(fmt_str) == ws_text(p, 2));
+                            }
+                        }
+//@@ after /number_formats\s*\.insert\([^;]*;/
+                        proof {
+                            let p = rec_payload(f->at);
+                            if !bad {
+                                st = StSt { custom: st.custom.insert(le16(p) as u16, custom_class(ws_text(p, 2))),
+                                    mode: if len - it.index@ == 1 { StMode::Top } else { StMode::Fmts { left: (len - it.index@ - 1) as nat } }, ..st };
+                            }
+                        }
+//@@ after /let _len = iter\.fill_buffer\(&mut buf\)\?;/#1of2
+                    let ghost pl = rec_payload(h);
+                    proof { lemma_rec_read(h); assert(buf@ =~= pl); cur = rec_rest(h); }
+//@@ after /let len = read_usize\(&buf\);/#1of2
+                    proof {
+                        if pl.len() >= 4 { st = StSt { mode: StMode::Xfs { left: le32(pl) as nat }, ..st }; }
+                    }
+//@@ loop 2 it
+                        invariant
+                            part_bytes(old(self).zip, styles_path()) is Some, s0 == part_bytes(old(self).zip, styles_path())->Some_0,
+                            st0 == (StSt { custom: Map::<u16, CellFormat>::empty(), xfs: Seq::<CellFormat>::empty(), mode: StMode::Top }),
+                            tot == styles(s0, st0), f0 == old(self).formats@, bad == (tot is Malformed),
+                            pl.len() < 4 ==> bad,
+                            bad || (len as int == le32(pl) && tot == styles(cur, st) && number_formats@ == st.custom
+                                && st.mode == (StMode::Xfs { left: (len - it.index@) as nat })),
+                            cur == iter.rem(), cur.len() < h.len(),
+                            it.index@ <= len,
+                            forall|k: u16| #[trigger] st.custom.contains_key(k) ==> fmt_id_ok(k as int),
+                            bad || self.formats@ == f0 + st.xfs,
+                            self.sheets@ == old(self).sheets@, self.strings@ == old(self).strings@, self.is_1904 == old(self).is_1904,
+//@@ before /let _ = iter\.next_skip_blocks\(0x002F/
+                        let ghost g = cur;
+                        let ghost f = first_of(g, 0x002F, Seq::<(u16, Option<u16>)>::empty());
+                        let ghost fv = self.formats@;
+                        proof {
+                            let bl: [(u16, Option<u16>); 0] = [];   // the literal `&[]` of the call below
+                            assert(bl@ =~= Seq::<(u16, Option<u16>)>::empty());
+                            lemma_first_of_unblocked(g, 0x002F);
+                            if !bad { lemma_styles_seek(g, st, 0x002F); }
+                            if f is Found { lemma_styles_step(f->at, st); lemma_first_of_at(g, 0x002F, Seq::<(u16, Option<u16>)>::empty()); }
+                        }
+//@@ after /let _ = iter\.next_skip_blocks\(0x002F[^;]*;/
+                        proof { cur = iter.rem(); }
+//@@ after /let fmt_code = read_u16\(&buf\[2\.\.4\]\);/
+                        proof {
+                            let p = rec_payload(f->at);
+                            if f is Found && p.len() >= 4 {
+                                assert(buf@.subrange(2, 4) =~= p.subrange(2, 4)) by {
+                                    assert(buf@.subrange(0, p.len() as int)[2] == buf@[2] && buf@.subrange(0, p.len() as int)[3] == buf@[3]);
+                                }
+                            }
+                        }
+//@@ after /match builtin_format_by_code\(fmt_code\) \{[^}]*\{[^}]*\}[^}]*\}/
+                        proof {
+                            let p = rec_payload(f->at);
+                            assert(self.formats@ =~= fv.push(self.formats@.last()));
+                            if !bad {
+                                // DateTime / TimeDelta / Other follows the number format the XF refers to
+                                //# C10.xf_class_pushed
+                                assert(self.formats@.last() == xf_class(le16(p.subrange(2, 4)), st.custom));
+                                st = StSt { xfs: st.xfs.push(xf_class(le16(p.subrange(2, 4)), st.custom)), mode: StMode::Xfs { left: (len - it.index@ - 1) as nat }, ..st };
+                                assert(self.formats@ =~= f0 + st.xfs);
+                            }
+                        }
+//@@ before /break;/
+                    proof { if !bad { lemma_styles_step(cur, st); } }
+//@@ end
 //@@ fn src/xlsb/mod.rs Xlsb::read_shared_strings props=C19,C03 entry ret=r
 //@@ sig
     ensures
-        true,
+        // no shared-strings part: nothing to read ("it is fine if path does not exists")
+        //# C19.sst_absent_part
+        part_bytes(old(self).zip, sst_path()) is None ==> r is Ok && final(self).strings@ == old(self).strings@,
+        // shared-string index i designates the i-th BrtSSTItem: the table gets the cstUnique items in record order
+        //# C19.sst_item_index
+        part_bytes(old(self).zip, sst_path()) is Some && sst_part(part_bytes(old(self).zip, sst_path())->Some_0) is Done ==>
+            r is Ok && strs(final(self).strings@) == strs(old(self).strings@) + sst_part(part_bytes(old(self).zip, sst_path())->Some_0)->items,
+        // a declared count that the stream does not honour ends in an error (C06: no hang, no partial table reported as complete)
+        //# C06,C19.sst_truncated_is_error
+        part_bytes(old(self).zip, sst_path()) is Some && sst_part(part_bytes(old(self).zip, sst_path())->Some_0) is Truncated ==> r is Err,
+        //# C07.sst_read_frame
+        final(self).sheets@ == old(self).sheets@ && final(self).formats@ == old(self).formats@ && final(self).is_1904 == old(self).is_1904,
+//@@ after /let mut buf = Vec::with_capacity\(1024\);/
+        let ghost s0 = iter.rem();
+        let ghost str0 = self.strings@;
+        proof {
+            // the literal `&[]` of the call below
+            let bl: [(u16, Option<u16>); 0] = [];
+            assert(bl@ =~= Seq::<(u16, Option<u16>)>::empty());
+        }
+//@@ after /let len = read_usize\(&buf\[4\.\.8\]\);/
+        let ghost t0 = first_of(s0, 0x009F, Seq::<(u16, Option<u16>)>::empty());
+        let ghost s1 = iter.rem();
+        let ghost mut items = Seq::<Seq<char>>::empty();
+        let ghost good = t0 is Found && rec_payload(t0->at).len() >= 8;
+        let ghost tot = sst_items(s1, len as nat, Seq::<Seq<char>>::empty());
+        proof {
+            if good {
+                let p0 = rec_payload(t0->at);
+                assert(buf@.subrange(0, p0.len() as int).subrange(4, 8) =~= buf@.subrange(4, 8));
+                assert(len as int == le32(p0.subrange(4, 8)));
+            }
+            assert(strs(str0) + items =~= strs(str0));
+        }
+//@@ loop 0 it
+            invariant
+                part_bytes(old(self).zip, sst_path()) is Some,
+                s0 == part_bytes(old(self).zip, sst_path())->Some_0, str0 == old(self).strings@,
+                !good ==> !(sst_part(s0) is Done) && !(sst_part(s0) is Truncated),
+                good ==> sst_part(s0) == tot,
+                good ==> (tot is Malformed || tot is Blocked || tot == sst_items(iter.rem(), (len - it.index@) as nat, items)),
+                good && !(tot is Malformed) && !(tot is Blocked) ==> strs(self.strings@) == strs(str0) + items,
+                it.index@ <= len,
+                self.sheets@ == old(self).sheets@, self.formats@ == old(self).formats@, self.is_1904 == old(self).is_1904,
+//@@ before /let _ = iter\.next_skip_blocks\(\s*0x0013/
+            let ghost h = iter.rem();
+            let ghost sv = self.strings@;
+            let ghost f = first_of(h, 0x0013, sst_bounds());
+            proof {
+                lemma_sst_items_step(h, (len - it.index@) as nat, items);
+                // the literal `&[(0x0023, Some(0x0024))]` of the call below
+                let bl: [(u16, Option<u16>); 1] = [(0x0023u16, Some(0x0024u16))];
+                assert(bl@ =~= sst_bounds());
+            }
+//@@ before /self\.strings\.push\(wide_str/
+            proof {
+                axiom_cow_owned_str_all();
+                if f is Found && ws_ok(rec_payload(f->at), 1) { lemma_ws_buf(buf@, rec_payload(f->at), 1); }
+            }
+//@@ after /self\.strings\.push\(wide_str[^;]*;/
+            proof {
+                assert(self.strings@ =~= sv.push(self.strings@.last()));
+                if good && !(tot is Malformed) && !(tot is Blocked) {
+                    // the i-th entry of the table is the text of the i-th BrtSSTItem (XLWideString at offset 1)
+                    //# C19.sst_item_text
+                    assert(self.strings@.last()@ == ws_text(rec_payload(f->at), 1));
+                    assert(strs(self.strings@) =~= strs(sv).push(ws_text(rec_payload(f->at), 1)));
+                    items = items.push(ws_text(rec_payload(f->at), 1));
+                    assert(strs(self.strings@) =~= strs(str0) + items);
+                }
+            }
 //@@ end
+//@@ endimpl
+
+// R-mono (documented mechanical rule, first used by unit lazyrange): Verus 0.2026.09.13 loses vstd's specification of iterator adapters
+// taking a closure (`.map(closure)`, `.find(closure)`) when the closure is created inside a function with type parameters (probed again
+// here: the `chunks(12).map(..).take(..).collect()` chain of read_workbook verifies in a non-generic fn and is unconstrained in
+// `impl<RS> ..`).  The method text is therefore verified, verbatim, as a method of `Xlsb<VerifRs>` for an opaque reader type VerifRs;
+// the method touches RS only through the ZipArchive stand-in, so by parametricity the instance stands for all RS.
+pub struct VerifRs { _opaque: u8 }
+impl Xlsb<VerifRs> {
 //@@ fn src/xlsb/mod.rs Xlsb::read_workbook props=C16,C03,C14 entry ret=r
 //@@ sig
     ensures
@@ -743,7 +1379,7 @@ pub open spec fn strs(v: Seq<String>) -> Seq<Seq<char>> { v.map_values(|s: Strin
 //@@ loop 0
             invariant_except_break
                 // the reader is at a record boundary at the top of every iteration: `cur` only ever advances by whole records
-                //# C03.unknown_records_skipped_whole
+                //# C03,C16.unknown_records_skipped_whole
                 cur == iter.rem(),
                 buf@.len() == 0,
                 wb1(s0, st0, rels) is Malformed || wb1(s0, st0, rels) == wb1(cur, st, rels),
@@ -795,7 +1431,7 @@ pub open spec fn strs(v: Seq<String>) -> Seq<Seq<char>> { v.map_values(|s: Strin
                     let ghost rl32 = rel_len as int;
 //@@ after /let relid = &buf\[12\.\.12 \+ rel_len\];/
                         let ghost relid_bytes = relid@;
-//@@ before /let visible = match read_u32\(&buf\)/
+//@@ before /let path = /
                         let ghost hs = le32(buf@);
                         proof {
                             axiom_cow_str(); axiom_cow_owned_str_all();
@@ -833,7 +1469,7 @@ pub open spec fn strs(v: Seq<String>) -> Seq<Seq<char>> { v.map_values(|s: Strin
                         proof {
                             assert(self.metadata.sheets@.drop_last() =~= ms_before);
                             assert(self.sheets@.drop_last() =~= ss_before);
-                            if bundle_wf(pl, rels) {
+                            if bundle_wf(pl, rels) && !(wb1(s0, st0, rels) is Malformed) {
                                 assert(bundle_decl(pl, rels) is Some);
                                 let d = bundle_decl(pl, rels)->Some_0;
                                 lemma_sheets_push(ms_before, ss_before, self.metadata.sheets@, self.sheets@, m0, n0, st.sheets, d);
@@ -851,7 +1487,7 @@ pub open spec fn strs(v: Seq<String>) -> Seq<Seq<char>> { v.map_values(|s: Strin
                     // BrtEndBundleShs is a record like any other: its size field (and payload) belong to it
                     cur = rec_rest(h);
                 }
-                //# C03.end_bundle_record_skipped_whole
+                //# C03,C16.end_bundle_record_skipped_whole
                 assert(rec_ok(h) && iter.rem() == rec_rest(h));
 //@@ after /=> break/
  }
@@ -867,7 +1503,7 @@ pub open spec fn strs(v: Seq<String>) -> Seq<Seq<char>> { v.map_values(|s: Strin
 //@@ loop 1
             invariant
                 // same framing rule in the second half of the part
-                //# C03.unknown_records_skipped_whole_after_sheets
+                //# C03,C16.unknown_records_skipped_whole_after_sheets
                 cur == iter.rem(),
                 wb2(c1, st2_0, shn) is Malformed || wb2(c1, st2_0, shn) == wb2(cur, st2, shn),
                 wb2(c1, st2_0, shn) is Malformed || pairs(defined_names@) == st2.names,
@@ -889,7 +1525,7 @@ pub open spec fn strs(v: Seq<String>) -> Seq<Seq<char>> { v.map_values(|s: Strin
                 self.strings@ == old(self).strings@, self.formats@ == old(self).formats@,
                 rels == relationships@,
             decreases iter.rem().len(),
-//@@ after /let typ = iter\.read_type\(\)\?;/
+//@@ before /let typ = iter\.read_type\(\)\?;/
             let ghost h = cur;
             proof { lemma_wb2_step(h, st2, shn); lemma_rec_total(h); }
 //@@ after /let _len = iter\.fill_buffer\(&mut buf\)\?;/
@@ -906,13 +1542,18 @@ pub open spec fn strs(v: Seq<String>) -> Seq<Seq<char>> { v.map_values(|s: Strin
 //@@ closure 0
     -> (res: String)
         ensures xti@.len() >= 8 ==> res@ == xti_name(signed32(le32(xti@.subrange(4, 8))), names_of(sheets@))
-//@@ after /self\.extern_sheets = extern_sheets;/
+//@@ before /let sheets = &self\.sheets;/
                     proof {
                         if xti_wf(pl) {
                             assert(buf@.subrange(0, 4) =~= pl.subrange(0, 4));
                             lemma_xti_chunks(buf@, pl);
+                        }
+                    }
+//@@ after /self\.extern_sheets = extern_sheets;/
+                    proof {
+                        if xti_wf(pl) {
+                            assert(self.extern_sheets@.len() == cxti);
                             let got = strs(self.extern_sheets@); let want = xti_names(pl, shn);
-                            assert(got.len() == want.len());
                             assert forall|k: int| 0 <= k < want.len() implies #[trigger] got[k] == want[k] by {
                                 assert(chunk_seq(buf@.subrange(4, buf@.len() as int), 12)[k].len() == 12);
                                 assert(got[k] == self.extern_sheets@[k]@);
@@ -934,9 +1575,10 @@ pub open spec fn strs(v: Seq<String>) -> Seq<Seq<char>> { v.map_values(|s: Strin
 //@@ after /let mut str_len = 0;/
                     let ghost name_sub = buf@.subrange(9, len as int);
                     let ghost dn_before = defined_names@;
+//@@ before /let formula = parse_formula\(/
+                    proof { lemma_name_arm(pl, buf@, name_sub, str_len as int, buf@.skip(9 + str_len as int), rgce@); }
 //@@ after /defined_names\.push\(\(name, formula\)\);/
                     proof {
-                        lemma_name_arm(pl, buf@, name_sub, str_len as int, buf@.skip(9 + str_len as int), rgce@);
                         if name_wf(pl) && !(wb2(c1, st2_0, shn) is Malformed) {
                             assert(defined_names@ =~= dn_before.push(defined_names@.last()));
                             assert(pairs(defined_names@) =~= pairs(dn_before).push((defined_names@.last().0@, defined_names@.last().1@)));
@@ -955,7 +1597,76 @@ verif_rel_index(relationships, \g<1>)
 //@@ replace /&buf\[0\] &/ Verus has no `BitAnd<u8> for &u8` (std: `&a & b` is `*a & b`); same index, same operand
 buf[0] &
 //@@ end
+//@@ fn src/xlsb/mod.rs Xlsb::worksheet_cells_reader props=C07,C16 entry ret=r
+//@@ sig
+    ensures
+        // an unknown sheet name is an error, not some other sheet (exact match)
+        //# C07.unknown_sheet_is_error
+        !old(self).knows(name@) ==> r is Err && r->Err_0 is WorksheetNotFound,
+        // the reader is built from the part of a sheet with exactly that name and from the workbook's tables -- nothing else
+        //# C07.reader_built_from_workbook_state
+        r is Ok ==> exists|i: int| 0 <= i < old(self).v_sheets().len() && (#[trigger] old(self).v_sheets()[i]).0@ == name@
+            && part_bytes(old(self).v_zip(), old(self).v_sheets()[i].1@) is Some
+            && r->Ok_0.src() == (ReaderSrc { bytes: part_bytes(old(self).v_zip(), old(self).v_sheets()[i].1@)->Some_0, formats: old(self).v_formats(),
+                strings: old(self).v_strings(), extern_sheets: old(self).v_extern(), names: old(self).v_names(), is_1904: old(self).v_1904() }),
+        // the workbook's date-system flag is what every cell reader gets
+        //# C16.date_system_flag_reaches_reader
+        r is Ok ==> r->Ok_0.src().is_1904 == old(self).v_1904(),
+        //# C07.reader_streams_are_functions_of_source
+        r is Ok ==> r->Ok_0.formulas() == XlsbCellsReader::formulas_of(r->Ok_0.src()) && r->Ok_0.fend() == XlsbCellsReader::fend_of(r->Ok_0.src()),
+//@@ body
+        proof { axiom_string_eq_str(); }
+//@@ before /let iter = RecordIter::from_zip\(&mut self\.zip, &path\)/
+        let ghost wi = choose|i: int| 0 <= i < self.sheets@.len() && (#[trigger] self.sheets@[i]).0@ == name@ && self.sheets@[i].1@ == path@;
+        proof {
+            // (from the specification of Iterator::find) the entry found is an entry of the sheet list whose name is exactly `name`
+            assert(exists|i: int| 0 <= i < self.sheets@.len() && (#[trigger] self.sheets@[i]).0@ == name@ && self.sheets@[i].1@ == path@);
+            assert(old(self).v_sheets()[wi] == self.sheets@[wi]);
+            assert(old(self).knows(name@));
+        }
+//@@ replace /\|&\(n, _\)\| ((?:[^()]|\([^()]*\))*)\)/ Verus has no ref patterns (`|&(n, _)|`): the parameter is bound to a name and `n` to a reference to its first component (what the pattern binds); the closure body is kept verbatim and gets the Verus closure signature
+|__e| -> (res: bool) ensures res == (__e.0@ == name@) { let n = &__e.0; \g<1> })
+//@@ end
+//@@ fn src/xlsb/mod.rs "Reader<RS> for Xlsb<RS>::worksheet_formula" props=C14,C07,C06 entry ret=r
+//@@ sig
+    ensures
+        //# C07.formula_unknown_sheet_is_error
+        !old(self).knows(name@) ==> r is Err && r->Err_0 is WorksheetNotFound,
+        // the result is the range of the formula cells with a non-empty text of the sheet with exactly that name, read with the workbook's tables
+        //# C14,C07.formula_range_of_nonempty_formula_cells
+        r is Ok ==> exists|i: int| 0 <= i < old(self).v_sheets().len() && (#[trigger] old(self).v_sheets()[i]).0@ == name@
+            && part_bytes(old(self).v_zip(), old(self).v_sheets()[i].1@) is Some
+            && r->Ok_0 == from_sparse_spec(nonempty_formulas(XlsbCellsReader::formulas_of(ReaderSrc {
+                bytes: part_bytes(old(self).v_zip(), old(self).v_sheets()[i].1@)->Some_0, formats: old(self).v_formats(),
+                strings: old(self).v_strings(), extern_sheets: old(self).v_extern(), names: old(self).v_names(), is_1904: old(self).v_1904() }))),
+//@@ after /let mut cells = Vec::with_capacity\([^;]*;/
+        let ghost all = cells_reader.formulas();
+        let ghost mut k: int = 0;
+        proof { assert(all.take(0) =~= Seq::<Cell<String>>::empty()); assert(all.skip(0) =~= all); }
+//@@ loop 0
+            invariant
+                0 <= k <= all.len(), cells_reader.formulas() == all.skip(k),
+                cells@ == nonempty_formulas(all.take(k)),
+                old(self).knows(name@),
+            ensures
+                k == all.len(),
+            decreases cells_reader.formulas().len(),
+//@@ before /if !cell\.val\.is_empty\(\)/
+            proof {
+                assert(all.skip(k)[0] == all[k]);
+                assert(all.skip(k).skip(1) =~= all.skip(k + 1));
+                assert(all.take(k + 1).drop_last() =~= all.take(k));
+                assert(all.take(k + 1).last() == all[k]);
+                k = k + 1;
+            }
+//@@ before /Ok\(Range::from_sparse/
+        proof { assert(all.take(k) =~= all); }
+//@@ replace /Vec::with_capacity\(/ routed through a wrapper (same expression in its body) whose precondition is the allocation cap of C06
+verif_with_capacity_capped(
+//@@ end
 //@@ endimpl
 
 } // verus!
+impl Read for VerifRs { fn read(&mut self, _buf: &mut [u8]) -> std::io::Result<usize> { unimplemented!() } }
+impl Seek for VerifRs { fn seek(&mut self, _pos: std::io::SeekFrom) -> std::io::Result<u64> { unimplemented!() } }
 fn main() {}
